@@ -644,6 +644,13 @@ func (g *gen) genPipeline(last bool) {
 		env = append(env, g.callAvail(c, mapKind)...)
 		_ = havePreflight
 	}
+	// the preflight call need not be written first in the pipeline body
+	if len(pl.Calls) > 1 && pl.Calls[0].Preflight && g.pick(3) > 0 {
+		k := 1 + g.pick(len(pl.Calls)-1)
+		pf := pl.Calls[0]
+		copy(pl.Calls[0:k], pl.Calls[1:k+1])
+		pl.Calls[k] = pf
+	}
 	// returns
 	xenv := g.expand(env)
 	nout := 1 + g.pick(g.cfg.MaxParams)
